@@ -422,9 +422,13 @@ func (c *Container) computeAllowedMethods(req *Request) []string {
 	// Go through all RegisteredWebServices() and all its Routes to collect the options
 	methods := []string{}
 	requestPath := req.Request.URL.Path
+	// only the WebService that the router dispatches this URL to can handle it
+	c.webServicesLock.RLock()
+	selected, _, _ := c.router.SelectRoute(c.webServices, req.Request)
+	c.webServicesLock.RUnlock()
 	for _, ws := range c.RegisteredWebServices() {
 		matches := ws.pathExpr.Matcher.FindStringSubmatch(requestPath)
-		if matches != nil {
+		if matches != nil && ws == selected {
 			finalMatch := matches[len(matches)-1]
 			for _, rt := range ws.Routes() {
 				matches := rt.pathExpr.Matcher.FindStringSubmatch(finalMatch)
